@@ -39,7 +39,21 @@ Definition t10_asc_subset : list (N * string) := [
   (58 * 256 + 0, "MEDIUM NOT PRESENT");
   (63 * 256 + 14, "REPORTED LUNS DATA HAS CHANGED");
   (68 * 256 + 0, "INTERNAL TARGET FAILURE");
-  (83 * 256 + 2, "MEDIUM REMOVAL PREVENTED")
+  (83 * 256 + 2, "MEDIUM REMOVAL PREVENTED");
+  (0 * 256 + 29, "ATA PASS THROUGH INFORMATION AVAILABLE");
+  (4 * 256 + 7, "LOGICAL UNIT NOT READY, OPERATION IN PROGRESS");
+  (12 * 256 + 0, "WRITE ERROR");
+  (21 * 256 + 0, "RANDOM POSITIONING ERROR");
+  (49 * 256 + 0, "MEDIUM FORMAT CORRUPTED");
+  (62 * 256 + 0, "LOGICAL UNIT HAS NOT SELF-CONFIGURED YET");
+  (64 * 256 + 0, "RAM FAILURE (SHOULD USE 40 NN)");          (* 40h/00h is assigned; 40h/80h..FFh is the parametric family *)
+  (67 * 256 + 0, "MESSAGE ERROR");
+  (69 * 256 + 0, "SELECT OR RESELECT FAILURE");
+  (71 * 256 + 0, "SCSI PARITY ERROR");
+  (73 * 256 + 0, "INVALID MESSAGE ERROR");
+  (78 * 256 + 0, "OVERLAPPED COMMANDS ATTEMPTED");
+  (93 * 256 + 0, "FAILURE PREDICTION THRESHOLD EXCEEDED");
+  (93 * 256 + 255, "FAILURE PREDICTION THRESHOLD EXCEEDED (FALSE)")   (* assigned although the qualifier is in the vendor specific range *)
 ].
 
 (* sense keys, SPC-4 table 49 (the names the standard uses, upper case; compared case-insensitively) *)
